@@ -167,6 +167,14 @@ def dump_sub(sn, point, methods, want_solution=True):
                 zm = kk * zm
                 params['pZM0'] = params['pZM1'] = rat(sp.sqrt(sp.cancel(ZL1 * ZL2 / ssym**2)) * ssym * kk, point) \
                     if str(sn.kind) in ('s', 'ivp', 'laplace', 'transient') else rat(zm, point)
+                # textbook mutual inductance and the initial currents as the netlist gives them
+                L1v = sp.cancel(ZL1 / ssym) if str(sn.kind) in ('s', 'ivp', 'laplace', 'transient') else None
+                L2v = sp.cancel(ZL2 / ssym) if L1v is not None else None
+                if L1v is not None:
+                    params['pZM2'] = rat(kk * sp.sqrt(L1v * L2v), point)
+                for pn, ln in (('pI01', elt.Lname1), ('pI02', elt.Lname2)):
+                    a = sn.elements[ln].args
+                    params[pn] = rat(ConstantDomainExpression(a[1]).sympy, point) if len(a) > 1 and a[1] is not None else '0/1'
             except Exception:
                 pass
         d['params'] = params
